@@ -177,6 +177,18 @@ func c05GenSeq(r *verifh.Rng) []verifh.Section {
 		secs = append(secs, verifh.Section{Cfg: fmt.Sprintf("kind=pool mode=seq n=%d maxage=%d breach=%d", n, maxage, b),
 			Ops: c05PoolOps(r, n, maxage, r.Range(8, 36), breach)})
 	}
+	// syncx.Barrier.Guard / syncx.Guard(lock, fn), sequentially: `borrow` = a Guard call whose fn blocks on a gate
+	// (free: inside at once; taken: the call is parked in Lock until the holder is let go), `finish [how]`, `probe`
+	for i := 0; i < verifh.Scale(8, 100); i++ {
+		var ops []string
+		for _, o := range c5.SeqOps(r, 1, r.Range(8, 30), true, c5.FinishOp(r)) {
+			if o == "try" {
+				o = "borrow"
+			}
+			ops = append(ops, o)
+		}
+		secs = append(secs, verifh.Section{Cfg: fmt.Sprintf("kind=barrier mode=seq n=1 api=%s", r.PickS("barrier", "guard")), Ops: ops})
+	}
 	// several objects alive at once (2-4 instances, equal and different capacities), ops interleaved: every
 	// instance is checked against its own n
 	for i := 0; i < verifh.Scale(10, 150); i++ {
@@ -222,14 +234,22 @@ func c05GenConc(r *verifh.Rng) []verifh.Section {
 		secs = append(secs, verifh.Section{Cfg: fmt.Sprintf("kind=limit mode=conc n=%d", n), Ops: []string{
 			fmt.Sprintf("run g=%d iters=%d try=%d pan=%d rs=%d", g, r.Range(10, verifh.Scale(40, 150)), r.Pick(0, 30, 60), r.Pick(0, 10, 30), r.Intn(1<<30)),
 			fmt.Sprintf("rogue g=%d iters=%d rs=%d", r.Range(2, 8), r.Range(10, 60), r.Intn(1<<30)),
-			fmt.Sprintf("run g=%d iters=%d try=%d pan=%d rs=%d", g, r.Range(10, 40), 50, 20, r.Intn(1<<30)),
+			fmt.Sprintf("run g=%d iters=%d try=%d pan=%d exits=se rs=%d", g, r.Range(10, 40), 50, 20, r.Intn(1<<30)),
 		}})
 	}
 	for i := 0; i < verifh.Scale(4, 60); i++ {
 		n := r.Pick(1, 2, r.Range(1, 6))
 		g := r.Pick(n+1, 2*n+2, r.Range(2, 12))
 		secs = append(secs, verifh.Section{Cfg: fmt.Sprintf("kind=tlimit mode=conc n=%d", n), Ops: []string{
-			fmt.Sprintf("run g=%d iters=%d try=%d pan=%d rs=%d", g, r.Range(10, verifh.Scale(30, 100)), r.Pick(0, 30), r.Pick(0, 10, 30), r.Intn(1<<30)),
+			fmt.Sprintf("run g=%d iters=%d try=%d pan=%d exits=%s rs=%d", g, r.Range(10, verifh.Scale(30, 100)), r.Pick(0, 30), r.Pick(0, 10, 30), r.PickS("s", "se"), r.Intn(1<<30)),
+		}})
+	}
+	// syncx.Barrier.Guard / syncx.Guard: a limiter of capacity 1 (mutual exclusion), the callers leave fn by return,
+	// panic (string / error value) or runtime.Goexit
+	for i := 0; i < verifh.Scale(3, 40); i++ {
+		secs = append(secs, verifh.Section{Cfg: fmt.Sprintf("kind=barrier mode=conc n=1 api=%s", r.PickS("barrier", "guard")), Ops: []string{
+			fmt.Sprintf("run g=%d iters=%d pan=%d exits=%s rs=%d", r.Range(2, 8), r.Range(10, verifh.Scale(40, 120)), r.Pick(0, 10, 40), r.PickS("s", "seg", "e"), r.Intn(1<<30)),
+			fmt.Sprintf("run g=%d iters=%d pan=100 exits=%s rs=%d", r.Range(2, 6), r.Range(5, 30), r.PickS("seg", "g", "se"), r.Intn(1<<30)),
 		}})
 	}
 	for i := 0; i < verifh.Scale(5, 100); i++ {
@@ -286,7 +306,7 @@ func c05RunSem(op []string, n int, borrow func(r *verifh.Rng) bool, l c05Sem) st
 					if err := l.Return(); err != nil {
 						h.Rec(gid, "e"+strconv.Itoa(gid))
 					}
-				}, func() { c5.Inside(h, ga, r, gid, gid, pan) })
+				}, func() { c5.InsideK(h, ga, r, gid, gid, pan, p.Str("exits", "s")) })
 			}
 		}(gid)
 	}
@@ -486,6 +506,130 @@ func c05StartTimeoutLimit(cfg verifh.Cfg) (func(op []string) string, func()) {
 			case <-wres:
 			case <-time.After(time.Second):
 			}
+		}
+	}
+}
+
+// c05StartBarrier: syncx.Barrier.Guard (api=barrier) or syncx.Guard(&mutex, fn) (api=guard).
+func c05StartBarrier(cfg verifh.Cfg) (func(op []string) string, func()) {
+	var b Barrier
+	var mu sync.Mutex
+	lock := &b.lock
+	guard := b.Guard
+	if cfg.Str("api", "barrier") == "guard" {
+		lock = &mu
+		guard = func(fn func()) { Guard(&mu, fn) }
+	}
+	type call struct {
+		gate    chan byte
+		entered chan struct{}
+		done    chan struct{}
+	}
+	var running []*call // at most one can be inside; kept as a list like the other kinds
+	launch := func() *call {
+		c := &call{gate: make(chan byte), entered: make(chan struct{}), done: make(chan struct{})}
+		go func() {
+			defer close(c.done)
+			defer func() { _ = recover() }() // Guard does not recover: the caller does
+			guard(func() {
+				close(c.entered)
+				if k := <-c.gate; k != 0 {
+					c5.Abort(k)
+				}
+			})
+		}()
+		return c
+	}
+	probe := func() int {
+		if lock.TryLock() {
+			lock.Unlock()
+			return 1
+		}
+		return 0
+	}
+	end := func(c *call, how byte) string {
+		c.gate <- how
+		<-c.done // Guard returned / unwound: the deferred Unlock has run
+		return "ok"
+	}
+	step := func(op []string) string {
+		switch op[0] {
+		case "borrow":
+			c := launch()
+			select {
+			case <-c.entered:
+				running = append(running, c)
+				return "ok"
+			case <-time.After(time.Millisecond):
+			}
+			if len(running) == 0 {
+				// nobody is inside and yet the call does not get in: the lock was never given back
+				select {
+				case <-c.entered:
+					running = append(running, c)
+					return "ok"
+				case <-time.After(2 * time.Second):
+					return "stuck"
+				}
+			}
+			old := running[0]
+			running = running[1:]
+			end(old, 0)
+			select {
+			case <-c.entered:
+			case <-time.After(10 * time.Second):
+				return "stuck"
+			}
+			running = append(running, c)
+			return "blocked"
+		case "finish":
+			if len(running) == 0 {
+				return "none"
+			}
+			c := running[0]
+			running = running[1:]
+			return end(c, c5.FinishKind(op))
+		case "probe":
+			return fmt.Sprintf("free=%d", probe())
+		case "run":
+			p := c5.Params(op)
+			g, iters, pan := p.Int("g", 2), p.Int("iters", 10), p.Int("pan", 0)
+			h := c5.NewHist(0)
+			ga := &c5.Gauge{}
+			var wg sync.WaitGroup
+			for gid := 0; gid < g; gid++ {
+				wg.Add(1)
+				go func(gid int) {
+					defer wg.Done()
+					r := c5.Rng(p, gid)
+					for i := 0; i < iters; i++ {
+						// each call on its own goroutine: Goexit inside fn ends only that call
+						var cw sync.WaitGroup
+						cw.Add(1)
+						tid := gid*100000 + i
+						cr := r.Fork()
+						go func() {
+							defer cw.Done()
+							defer func() { _ = recover() }()
+							guard(func() { c5.InsideK(h, ga, cr, -1, tid, pan, p.Str("exits", "s")) })
+						}()
+						cw.Wait()
+						if r.Chance(1, 3) {
+							runtime.Gosched()
+						}
+					}
+				}(gid)
+			}
+			if !c5.WatchdogProgress(h, c5.StuckIdle, c5.StuckAfter, wg.Wait) {
+				return "stuck"
+			}
+			return c5.RunLine(h, ga, probe())
+		}
+		return "bad-op"
+	}
+	return step, func() {
+		for _, c := range running {
+			end(c, 0)
 		}
 	}
 }
@@ -768,6 +912,8 @@ func c05RunSyncx(t *testing.T, secs []verifh.Section) {
 			return c05StartTimeoutLimit(cfg)
 		case "pool":
 			return c05StartPool(cfg)
+		case "barrier":
+			return c05StartBarrier(cfg)
 		}
 		return func([]string) string { return "bad-kind" }, nil
 	}
